@@ -47,10 +47,12 @@ def main(chk):
     for u in uu:
         u['nopack'] = True
     b1.validate(chk, uu, lambda u: 'as user-defined operator | ' + keyfn(dict(u, term=u['term']['body'])), pack=1)
+    # in / not_in against value domains of the environment (growth: run(value_domains=...))
+    b1.validate(chk, termgen.random_vd_units(rnd, 60 if quick else 1500), lambda u: 'value domain | ' + keyfn(u), pack=1)
     b1.binding_demo(chk, lu, lo, corrupt)
     chk.cov['rule'] = ('B1: every transition of the TLC model GenOps (combination tables meeting every pair of pool values incl. null, '
                        'zero, negative, fractional; every operator at dataset, dataset-scalar, scalar-dataset and component level; every '
                        'key-overlap pattern; chained second statement) replayed into run() (seeded sample in the quick tier); B2: random '
-                       'well-typed terms of depth <= 4 over 1-3 datasets validated by VTLOperators_Trace. distinct = distinct (term, result)')
+                       'well-typed terms of depth <= 4 over 1-3 datasets validated by VTLOperators_Trace, dataset-level if / case, the same statements as user-defined operator calls, in / not_in against value domains. distinct = distinct (term, result)')
     chk.assumptions += ['transcendental results (ln, exp, log, sqrt, non-integer power) are only checked for domain, null and type',
                         'numbers compared with 1e-6 relative tolerance', 'parser stand-in']
